@@ -356,7 +356,7 @@ func (n *Net) RoundTrip(req *http.Request) (*http.Response, error) {
 				c.serverDone = true
 				c.broadcast()
 				c.mu.Unlock()
-				s.addLibEvent(fmt.Sprintf("handler panic c%d %s %s: %v", c.ID, c.Method, c.Path, r))
+				s.addLibEvent(fmt.Sprintf("handler panic in %s [c%d %s %s]: %v", TopLibFrame(c.HandlerPanic), c.ID, c.Method, c.Path, r))
 				cancel()
 				close(c.finished)
 			}
